@@ -164,7 +164,13 @@ Definition exec_step (s : state) (t : nat) : option (state * label) :=
       let s1 := set_bld s b (mkBuild (b_owner x) (b_cancel x) (b_result x) true) in
       Some (finish_rebuild s1 t (result_of s1 b))
   | PCaStart =>
-      if disposed s then Some (ret s t RvUnit)
+      if disposed s then
+        (* disposed context: nothing is cancelled, but the call still waits
+           for a build that an earlier Dispose is waiting for *)
+        match active s with
+        | Some b => Some (set_pc s t (PCaWait b), LTau)
+        | None => Some (ret s t RvUnit)
+        end
       else match active s with
            | Some b => Some (set_pc s t (PCaSet b), LTau)
            | None => Some (ret s t RvUnit)
@@ -174,7 +180,11 @@ Definition exec_step (s : state) (t : nat) : option (state * label) :=
       Some (set_pc (set_bld s b (mkBuild (b_owner x) true (b_result x) (b_done x))) t (PCaWait b), LTau)
   | PCaWait b => if b_done (blds s b) then Some (ret s t RvUnit) else None
   | PDiStart =>
-      if disposed s then Some (ret s t RvUnit)
+      if disposed s then
+        match active s with
+        | Some b => Some (set_pc s t (PDiWait b), LTau)
+        | None => Some (ret s t RvUnit)
+        end
       else
         let s1 := mkState true (active s) None (watcher s) (wtid s) (stopFlag s) (wexited s)
                           (edits s) (nb s) (blds s) (nt s) (thr s) (ncalls s) in
